@@ -698,6 +698,32 @@ def stage1(assertions, stats):
     return fs4 + ax
 
 
+def assertion_slice(assertions, depth):
+    """Assertions within `depth` hops of the goal (last assertion) through shared constants, ignoring hub constants
+    (those occurring in more than a quarter of the assertions).  Sound: dropping hypotheses only weakens."""
+    cache = {}
+    cs = [consts_of(a, cache) for a in assertions]
+    freq = {}
+    for c in cs:
+        for x in c:
+            freq[x] = freq.get(x, 0) + 1
+    hub = {x for x, k in freq.items() if k > max(8, len(assertions) // 4)}
+    cs = [c - hub for c in cs]
+    goal = len(assertions) - 1
+    reach = set(cs[goal])
+    if not reach:
+        return None
+    chosen = {goal}
+    for _ in range(depth):
+        new = set()
+        for i, c in enumerate(cs):
+            if i not in chosen and c and (c & reach):
+                chosen.add(i)
+                new |= c
+        reach |= new
+    return [assertions[i] for i in sorted(chosen)]
+
+
 def consts_of(f, cache):
     i = f.get_id()
     r = cache.get(i)
@@ -783,6 +809,30 @@ def discharge_smt2(smt2, timeout_s=20, use_cvc5=True, both=False):
     stats = {}
     t0 = time.time()
     res = {"verdict": "unknown", "stage": None, "backend": None, "time": 0.0, "model": None, "stats": stats, "attempts": []}
+    # ---- cheap first attempt: only the hypotheses close to the goal (shared non-hub constants), then the whole problem
+    if len(assertions) > 40:
+        try:
+            for depth in (1, 2):
+                sub = assertion_slice(assertions, depth)
+                if sub is None or len(sub) > 0.6 * len(assertions):
+                    break
+                st_s = {}
+                fs_s = stage1(sub, st_s)
+                for label, logic, budget in (("pre-slice%d/z3-qfnra" % depth, "QF_NRA", 2), ("pre-slice%d/z3" % depth, None, 3)):
+                    try:
+                        r1, dt, m1, why = check_formulas(fs_s, budget * 1000, logic=logic)
+                    except z3.Z3Exception:
+                        r1, dt = "unknown", 0.0
+                    res["attempts"].append((label, r1 if r1 == "unsat" else "unknown", round(dt, 3)))
+                    if r1 == "unsat":
+                        st_s.pop("_select_table", None)
+                        st_s.pop("_goal_idx", None)
+                        res.update(verdict="unsat", stage=1, backend="z3", time=time.time() - t0, stats=st_s)
+                        return res
+        except Exception:
+            pass
+        _HQ.clear()
+        _GR.clear()
     try:
         fs = stage1(assertions, stats)
     except Exception as e:   # pipeline failure is a tool problem, never a verdict
@@ -791,6 +841,7 @@ def discharge_smt2(smt2, timeout_s=20, use_cvc5=True, both=False):
         res["time"] = time.time() - t0
         return res
     weakened = bool(stats.get("dropped_quantifiers")) or any(stats.get("ackermann", {}).get(k) for k in ("exp", "log", "pow", "wsum"))
+    pre = res.pop("_pre", None)
     # portfolio: nlsat-based QF_NRA strategy (fast and stable on pure real problems) with a short budget, then the default solver,
     # then QF_NRA with the full budget
     r, model = "unknown", None
